@@ -35,6 +35,8 @@ ASSUMPTIONS = [
     "elements that get truncated or corrupted are spelled without CDATA sections and comments (an opened one absorbs what follows up to its terminator - XML semantics, not a framing fault); intact messages use them",
     "watchdog budget 20000+1000*(R+1)+300*(G+1)*(R+1) line events per process() call (G,R = number of > and < buffered at entry), capped at 5e7",
 ]
+CHUNK_WALL_S = 120
+HANG_S = 30
 QUICK_RUNS = 8000
 QUICK_BUDGET_S = 120
 THOROUGH_BUDGET_S = 360
